@@ -1,0 +1,8 @@
+//! Verification support (feature `verif`): re-exports of internal items so that an external
+//! harness can call them in-process. Nothing here is compiled without the feature.
+
+pub use crate::core::{
+    verif_preprocess as preprocess, DepManager, Directive, DirectiveType, ReplaceLineEnding,
+    TagState, VerifPpResult as PpResult,
+};
+pub use crate::fs::{AbsPath, GetLineEnding, Shell, TxtppPath};
